@@ -7,7 +7,7 @@ EXTENDS Integers, Sequences, FiniteSets, TLC
 
 V(ok, p, g) == IF ok THEN <<>> ELSE <<[p |-> p, g |-> g]>>
 
-PInit(sc) == [dropped |-> FALSE, baseline |-> -1, probes |-> 0]
+PInit(sc) == [dropped |-> FALSE, dropret |-> FALSE, baseline |-> -1, probes |-> 0]
 
 \* a library thread count reported by the runtime / the kernel
 Probe(s, sc, e) ==
@@ -29,12 +29,16 @@ Quiescent(s, sc, e, cs) ==
                       /\ e.cs[c] = 0}
     IN [ s |-> s,
          v |-> V(starved = {}, "C08", "ConnectionNeverServed")
-               \o V((e.ph = 3 /\ s.dropped /\ sc.drv = "d1") => e.lib = 0, "C20", "ThreadsLeftAfterDrop") ]
+               \o V((e.ph = 3 /\ s.dropped /\ sc.drv = "d1") => e.lib = 0, "C20", "ThreadsLeftAfterDrop")
+               \* dropping the server never waits for the application or for a client: when nothing can run any
+               \* more, a drop that has begun has returned
+               \o V(s.dropped => s.dropret, "C20", "DropDidNotReturn") ]
 
 PStep(s, sc, e, cs) ==
     CASE e.ev = "Probe" -> Probe(s, sc, e)
       [] e.ev = "Quiescent" -> Quiescent(s, sc, e, cs)
       [] e.ev = "ServerDrop" -> [s |-> [s EXCEPT !.dropped = TRUE], v |-> <<>>]
+      [] e.ev = "ServerDropped" -> [s |-> [s EXCEPT !.dropret = TRUE], v |-> <<>>]
       [] e.ev = "Connect" -> [s |-> s, v |-> V(s.dropped => ~e.ok, "C20", "AcceptedAfterDrop")]
       [] e.ev = "SockFile" -> [s |-> s, v |-> V(s.dropped => ~e.exists, "C20", "SocketFileLeft")]
       [] e.ev = "ConnThreads" -> [s |-> s, v |-> V(e.n <= 1, "C08", "ConnectionServedByTwoWorkers")]
